@@ -23,8 +23,9 @@ CLI_TARGET = os.path.join(vlib.HARNESS, "target-cli-" + hashlib.md5(vlib.REPO.en
 
 FILES = {  # path -> (id, content); app1/update.spec is written per case
     "firmware/kernel.gz": (16, bytes([1, 2, 3, 4, 5])),
-    "app1/update.tar.gz": (35, bytes(range(200, 210))),
+    "app1/update.tar.gz": (35, bytes((i * 7 + 3) % 256 for i in range(300))),     # requests at 0 / 7 / 172 leave 300 / 293 / 128 bytes
 }
+NEAR_MISSES = ["app2/Update.spec", "firmware/KERNEL.GZ", "app1/update.tar.gz~", "old/app0/update.spec"]   # not artefacts
 WHAT = {"PT-stage-order": "the tool's commands did not go out in the order registration, system information, end of day, upload",
         "PT-skip-not-silent": "the tool said it skips the update but wrote further commands (or did not exit with 0)",
         "PT-upload-without-handshake": "the upload was started although registration or the system information exchange had failed",
@@ -50,7 +51,7 @@ def model_cases(chk, flat):
     vlib.tlc_must_pass(r, "MC_FeigUpdate")
     if r.violated:
         raise vlib.ToolError("the specification of the update tool violates %s:\n%s" % (r.violated, r.out[-1500:]))
-    chk.add_tlc("MC_FeigUpdate: one terminal behaviour per stage (8 x 8 x 9 x 12 menus) x forced x payload version {unreadable, contained, not "
+    chk.add_tlc("MC_FeigUpdate: one terminal behaviour per stage (8 x 8 x 9 x 13 menus) x forced x payload version {unreadable, contained, not "
                 "contained, empty} + every script up to %d frames over 7 frames; stage order, no upload without handshake, silence after a skip, "
                 "success only after completion, C05/C06 per stage, skip exactly when current" % flat, r)
     # control: a tool that uploads whatever the handshake gave violates Handshake
@@ -221,6 +222,9 @@ def run_case(tool, case, wd, k):
         open(p, "wb").write(content)
         files.append({"id": fid, "path": path, "size": len(content), "content": list(content)})
     open(os.path.join(d, "README.txt"), "wb").write(b"not a recognised file")
+    for nm in NEAR_MISSES:
+        os.makedirs(os.path.dirname(os.path.join(d, nm)), exist_ok=True)
+        open(os.path.join(d, nm), "wb").write(b"near miss " + nm.encode())
     rc, out, err, wire, note = run_process(
         lambda port: [tool, "--ip-address", "127.0.0.1:%d" % port, "--password", "123456"] + (["--force"] if case["force"] else []) + [d],
         case["frames"], wd, k)
